@@ -9,7 +9,7 @@ def main():
     thorough = ctx.tier == "thorough"
     ctx.rule = ("TLC enumerates every history of create(class)/drop/collect/clear/query(type) over the hierarchy "
                 "Base<-Mid<-Leaf and the diamond DA<-DB1,DB2<-DD (3 objects, 5 steps; thorough 6 steps); each history is "
-                "replayed on the real registry with gc disabled; after every query the returned bag is compared with the "
+                "replayed on the real registry with gc disabled (a further family creates instances by copy / deepcopy / dataclasses.replace / to_dao().from_dao() of a live one); after every query the returned bag is compared with the "
                 "weak-reference census restricted to the registry epoch. Non-trivial = history with a query that must "
                 "return at least one instance after at least one drop/clear/create interplay; distinct by history.")
     ctx.run_tlc("SymbolGraph", "SymbolGraph_mc_quick.cfg" if not thorough else "SymbolGraph_mc.cfg", expect="ok")
@@ -25,11 +25,19 @@ def main():
                                        lambda h: any(s["a"] == "relate" for s in h) and any(s["a"] in ("drop", "collect") for s in h),
                                        20000 if thorough else 2500)
     ctx.cov["histories_in_bound_relate_family"] = total_b
-    hs = hs + hs_b
+    # third family: instances that come into being without calling the class - copy, deepcopy, dataclasses.replace and
+    # reconstruction from a DAO (to_dao(p).from_dao()) of a live instance
+    ctx.run_tlc("SymbolGraph", "SymbolGraph_mc_modes.cfg", expect="ok")
+    ctx.run_tlc("SymbolGraph", "SymbolGraph_sw_UnregisteredModes.cfg", expect="violation")
+    hs_m, total_m = sgcommon.histories(ctx, "SymbolGraph_gen_c13m.cfg",
+                                       lambda h: keep(h) and any(s.get("mode") for s in h), 12000 if thorough else 1500)
+    ctx.cov["histories_in_bound_creation_modes_family"] = total_m
+    hs = hs + hs_b + hs_m
     cases = [{"mode": "c13", "h": h} for h in hs]
+    cases += [{"mode": "c13", "h": h, "falsy": True} for h in hs[::7]]      # instances that are falsy objects while alive
     results = replay("sg", cases)
     ctx.replayed = len(cases)
-    ctx.exhaustive = len(hs) == total + total_b
+    ctx.exhaustive = len(hs) == total + total_b + total_m
     ctx.cov["histories_in_bound"] = total
     names = [f"h{i}" for i in range(len(cases))]
     reuse = 0
@@ -52,10 +60,10 @@ def main():
             au = sgcommon.judge_audit(c["h"], r)
             if au:
                 bad = au[0]
-        ctx.case(c["h"], True, sample={"history": [(s["a"], s.get("c", s.get("o"))) for s in c["h"]],
+        ctx.case([c["h"], "falsy"] if c.get("falsy") else c["h"], True, sample={"history": [(s["a"], s.get("c", s.get("o"))) for s in c["h"]],
                                        "observed_last": r["steps"][-1]})
         if bad:
-            ctx.violation({"history": c["h"], **bad}, note="query result differs from the live instances (census) of the type")
+            ctx.violation({"history": c["h"], "falsy_instances": bool(c.get("falsy")), **bad}, note="query result differs from the live instances (census) of the type")
     ctx.cov["address_reuse_observed"] = reuse
     v = sgcommon.validate_h1(ctx, results, names, pinned=False)
     for name, c in zip(names, cases):
